@@ -71,6 +71,18 @@ def gen_opts(rng, target, p=0.35, allow_bad=False):
             else:
                 opts.append(opt_value(rng, k))
     rng.shuffle(opts)
+    # an option written twice: the later one wins
+    if keys and rng.random() < 0.12:
+        k = rng.choice(keys)
+        if k == "?Send":
+            again = "?Send"
+        elif k == "mock_api":
+            again = "mock_api = " + rng.choice(["FooMock", "Other"])
+        elif k == "delegate_by":
+            again = "delegate_by" + rng.choice(["", "", " = ref", " = Borrow"])
+        else:
+            again = opt_value(rng, k)
+        opts.insert(rng.randrange(len(opts) + 1), again)
     return opts
 
 
@@ -235,7 +247,7 @@ def gen_fn(rng, *, name=None, mode="fn", deps_kinds=None, allow_err=False, vis=N
     for _ in range(rng.choice([0, 0, 0, 1, 1, 2, 3])):
         attrs.append(rng.choice(FN_ATTRS))
     if "async" in quals and rng.random() < 0.15:
-        attrs.append(rng.choice(["#[async_trait]", "#[async_trait::async_trait]", "#[::async_trait::async_trait(?Send)]"]))
+        attrs.append(rng.choice(["#[async_trait]", "#[async_trait::async_trait]", "#[::async_trait::async_trait(?Send)]", "#[prelude::async_trait]", "#[a::b::async_trait]", "#[my::async_trait(?Send)]"] + ["#[automock]", "#[my::automock]"]))
     if rng.random() < 0.03:
         attrs.append("#[mockall::automock]")
     text = ""
@@ -329,11 +341,20 @@ def gen_mod(rng, *, allow_err=False, nfns=None):
     merged = [t for t, _ in all_items[:len(items)]]
     for d in decoys:
         merged.insert(rng.randrange(len(merged) + 1), d)
+    if rng.random() < 0.08 and items:
+        # the same function written twice under complementary cfgs (the usual platform split)
+        nm0 = rng.choice(["foo", "get"])
+        dup_a = "#[cfg(any())]\npub fn %s(d: &impl A, a: i32) -> i32 { a }" % nm0
+        dup_b = "#[cfg(not(any()))]\npub fn %s(d: &impl A, a: i32) -> i32 { a + 1 }" % nm0
+        k0 = rng.randrange(len(merged) + 1)
+        merged.insert(k0, dup_a)
+        merged.insert(rng.randrange(k0 + 1, len(merged) + 1), dup_b)
+        expected = None          # the generator's own list of expected methods does not cover this shape
     mv = rng.choice(["", "pub ", "pub(crate) "])
     mname = rng.choice(["m", "api", "inner_mod", "foo", "r#async", "r#type", "r#mod"])
     mattrs = ""
     if rng.random() < 0.2:
-        mattrs = rng.choice(["/// mod doc\n", "#[allow(unused)]\n", "#[async_trait]\n", "#[cfg(not(any()))]\n"])
+        mattrs = rng.choice(["/// mod doc\n", "#[allow(unused)]\n", "#[async_trait]\n", "#[cfg(not(any()))]\n", "#[prelude::async_trait]\n", "#[my::automock]\n"])
     text = mattrs + mv + "mod " + mname + " {\n" + "\n".join(merged) + "\n}"
     return text, {"expected_methods": expected, "mod": mname}
 
@@ -405,7 +426,7 @@ def gen_trait(rng):
     for _ in range(rng.choice([0, 0, 1, 2])):
         attrs += rng.choice(["/// trait doc", "#[allow(unused)]", "#[doc(hidden)]", "#[cfg(not(any()))]"]) + "\n"
     if any_async and rng.random() < 0.4:
-        attrs += rng.choice(["#[async_trait]", "#[async_trait::async_trait]", "#[::async_trait::async_trait(?Send)]"]) + "\n"
+        attrs += rng.choice(["#[async_trait]", "#[async_trait::async_trait]", "#[::async_trait::async_trait(?Send)]", "#[prelude::async_trait]", "#[a::b::async_trait]", "#[my::async_trait(?Send)]"]) + "\n"
     if rng.random() < 0.04:
         attrs += "#[mockall::automock]\n"
     u = "unsafe " if rng.random() < 0.03 else ""
@@ -449,7 +470,7 @@ def gen_impl(rng, allow_err=False):
     st = rng.choice(["MyType", "crate::MyType", "G<i32>", "(i32, u8)", "&'static MyType", "[u8; 2]"])
     attrs = ""
     for _ in range(rng.choice([0, 0, 1])):
-        attrs += rng.choice(["/// impl doc", "#[allow(unused)]", "#[async_trait]", "#[async_trait::async_trait]"]) + "\n"
+        attrs += rng.choice(["/// impl doc", "#[allow(unused)]", "#[async_trait]", "#[async_trait::async_trait]", "#[prelude::async_trait]", "#[x::y::async_trait]"]) + "\n"
     text = attrs + u + "impl " + tp + " for " + st + " {\n" + "\n".join(items) + "\n}"
     return text, {}
 
@@ -732,6 +753,21 @@ REGRESSION = [
     ("ref", "impl a::FooImpl::<T> for MyType { fn foo<D>(d: &D) {} }"),
     ("", "impl a::<X>::FooImpl for MyType { fn foo<D>(d: &D) {} }"),
     ("", "impl Fn(i32) -> i32 for MyType { fn foo<D>(d: &D) {} }"),
+    ("", "trait T<'a> { fn f(&self, x: &'a i32) -> &'a i32; }"),
+    ("", "pub trait T<'a, 'b: 'a, X: Clone = i32, const N: usize = 3> where X: 'a { fn f(&self, x: &'a X) -> [&'b X; N]; }"),
+    ("delegate_by = ref", "trait T<X = Vec<Box<dyn Fn(i32) -> i32>>, Y: Iterator<Item = u8> = std::vec::IntoIter<u8>> { fn f(&self, x: X, y: Y); }"),
+    ("FooImpl, delegate_by = ref", "trait T<'a, X = i32> { fn f(&self, x: &'a X); }"),
+    ("", "impl FooImpl for MyType { #[cfg(any())] fn f<D>(d: &D) {} #[cfg(not(any()))] fn f<D>(d: &D) {} fn g<D>(d: &D) {} }"),
+    ("Foo", "mod m { #[cfg(any())] pub fn f(d: &impl A) {} #[cfg(not(any()))] pub fn f(d: &impl A) {} pub fn g(d: &impl A) {} }"),
+    ("Foo, mock_api = M", "mod m { #[cfg(not(any()))] pub fn f(d: &impl A) {} #[cfg(any())] pub fn f(d: &impl A) {} }"),
+    ("delegate_by = ref, delegate_by", "trait T { fn f(&self); fn g(&self, a: i32) -> i32; }"),
+    ("delegate_by = Borrow, delegate_by = ref, delegate_by", "trait T { fn f(&self); }"),
+    ("delegate_by, delegate_by = ref", "trait T { fn f(&self); }"),
+    ("FooImpl, delegate_by = ref, delegate_by = Deleg", "trait T { fn f(&self); }"),
+    ("Foo, no_deps = false, no_deps", "fn foo() {}"),
+    ("Foo, unimock, mock_api = A, unimock = false, mock_api = B", "fn foo(d: &impl A) {}"),
+    ("", "#[prelude::async_trait]\ntrait T { async fn f(&self); fn g(&self); }"),
+    ("FooImpl, delegate_by = ref", "#[a::b::async_trait]\ntrait T { async fn f(&self); fn g(&self); }"),
     ("pub(super) Foo", "mod m { pub fn foo(d: &impl A) {} }"),
     ("pub(self) Foo", "pub mod m { pub fn foo(d: &impl A) {} }"),
     ("pub(in self::super) Foo", "mod m { pub fn foo(d: &impl A) {} }"),
